@@ -310,7 +310,8 @@ class ArrayStream(Stream):
                 continue
             done += 1
             yield {"shape": shape, "entries": [dumps(expr_to_sx(e)) for e in entries],
-                   "env": dumps(env_to_sx(env)), "entry": rng.choice(["call", "evaluate"])}
+                   "env": dumps(env_to_sx(env)),
+                   "entry": rng.choice(["call", "evaluate", "call", "evaluate", "cached"])}
 
     @staticmethod
     def _build(pl):
@@ -326,10 +327,15 @@ class ArrayStream(Stream):
         from pymbolic.mapper.evaluator import EvaluationMapper, evaluate
         if pl["entry"] == "call":
             return EvaluationMapper(env)(arr)
+        if pl["entry"] == "cached":
+            return evaluate(arr, env)          # the default, memoizing mapper
         return evaluate(arr, env, mapper_cls=EvaluationMapper)
 
     def request(self, pl):
-        return f"(evalhist false {pl['env']} ((List {' '.join(pl['entries'])})))"
+        # the TABLE INTERPRETER's array handler (`c02ArrayT` on the regenerated table)
+        c = "true" if pl["entry"] == "cached" else "false"
+        sh = " ".join(map(str, pl["shape"]))
+        return f"(c02-evalarray {c} {pl['env']} ({sh}) ({' '.join(pl['entries'])}))"
 
     def run_impl(self, pl):
         import numpy as np
@@ -338,10 +344,18 @@ class ArrayStream(Stream):
 
         def go():
             r = self._run(pl, arr, env)
-            if not isinstance(r, np.ndarray) or r.dtype != object or list(r.shape) != pl["shape"]:
+            if not isinstance(r, np.ndarray) or r.dtype != object:
                 return Malformed(r)
-            return [r[idx] for idx in np.ndindex(*pl["shape"])]
-        return "(" + result_sx(go) + ")"
+            return ArrayResult(list(r.shape), [r[idx] for idx in np.ndindex(*r.shape)])
+        try:
+            r = go()
+        except RecursionError:
+            raise
+        except Exception as ex:
+            return dumps(exc_to_sx(ex))
+        if isinstance(r, Malformed):
+            return "(malformed-result)"
+        return dumps([A("array"), list(r.shape), [value_to_sx(v) for v in r.flat]])
 
     def oracle(self, pl):
         import numpy as np
@@ -357,6 +371,15 @@ class ArrayStream(Stream):
                                f"{type(r).__name__} dtype={getattr(r, 'dtype', None)} "
                                f"shape={getattr(r, 'shape', None)}", pl)
             got = ("ok", [r[idx] for idx in np.ndindex(*pl["shape"])])
+        if (pl["entry"] == "cached" and got[:2] == ("err", "TypeError")
+                and not same_outcome(ref, got)):
+            return Failure("unhashable-ndarray", f"memoizing evaluator gives {got!r}, entry-wise "
+                           f"plain Python gives {ref!r}", pl)
+        if (got[:2] == ("err", "TypeError") and not same_outcome(ref, got)
+                and any("(CSE" in s and "(List" in s for s in pl["entries"])):
+            # the CSE result cache hashes a wrapper whose child contains a Python list
+            return Failure("unhashable-list", f"evaluator gives {got!r}, entry-wise plain Python "
+                           f"gives {ref!r}", pl)
         if not same_outcome(ref, got):
             return Failure("eval-differs:ndarray",
                            f"evaluator gives {got!r}, entry-wise plain Python gives {ref!r}", pl)
@@ -379,9 +402,14 @@ class ArrayStream(Stream):
 
 
 class Malformed:
-    """an evaluator result that is not an object array of the input's shape"""
+    """an evaluator result that is not an object array"""
     def __init__(self, r):
         self.r = r
+
+
+class ArrayResult:
+    def __init__(self, shape, flat):
+        self.shape, self.flat = shape, flat
 
 
 def json_key(pl):
